@@ -441,6 +441,22 @@ def run(ctx):
                 judge(ctx, other, wire, 'valid-other-decoder', steps=False)
         if dec == 'data':
             judge(ctx, 'cert', wire, 'data-as-cert')
+    # textual spellings of well-formed packets (what command line tools print: Base64, Base64 in 64-column lines, PEM-like armour,
+    # hexadecimal text, the same behind a NUL / with stray octets): byte strings that are no TLV packets of the decoder's kind
+    import base64 as _b64
+    seen_dec = {}
+    for dec, wire in corp:
+        if seen_dec.get(dec, 0) >= ctx.n(3, 40):
+            continue
+        seen_dec[dec] = seen_dec.get(dec, 0) + 1
+        t64 = _b64.b64encode(wire)
+        lines = b'\n'.join(t64[i:i + 64] for i in range(0, len(t64), 64)) + b'\n'
+        for lab, txt in (('base64', t64), ('base64-lines', lines), ('pem', b'-----BEGIN CERTIFICATE-----\n' + lines + b'-----END CERTIFICATE-----\n'),
+                         ('nul-base64', b'\x00' + t64), ('base64-with-stray-octets', t64[:5] + b'\x80\xff' + t64[5:]),
+                         ('urlsafe-base64', _b64.urlsafe_b64encode(wire)), ('hex', wire.hex().encode()), ('hex-upper', wire.hex().upper().encode()),
+                         ('base32', _b64.b32encode(wire)), ('base85', _b64.b85encode(wire))):
+            judge(ctx, dec, txt, 'text-spelling-' + lab, steps=False)
+            ctx.event('text-spelling-judged')
     # well-formed by construction: unknown non-critical elements inserted
     for dec, wire in corp:
         if dec == 'name':
